@@ -10,7 +10,7 @@ import multiprocessing as mp
 import ctlsem as C
 import exprsem as S
 import oracles_b09 as OB
-from common import hexs, rng, run_driver, unhex
+from common import hexs, note, rng, run_driver, unhex
 
 ENVS = [
     {"A": 1.0, "B": 2.0, "C": 3.0, "N": 0.0},
@@ -229,9 +229,12 @@ def oracle(case, impl):
         try:
             a, b = traces(case, out, env)
         except Exception:  # noqa: BLE001
+            note("ctl: skipped, reference machine does not cover the source")
             return None           # the reference machine does not cover this source
         if a and a[-1][0] == "error":
+            note("ctl: skipped, Color BASIC stops with an error (" + str(a[-1][1])[:14] + ")")
             continue              # Color BASIC stops with an error for this input vector: nothing to compare
+        note("ctl: traces compared")
         m = min(len(a), len(b))
         abud, bbud = a[-1:] == [("budget",)], b[-1:] == [("budget",)]
         if abud or bbud:
